@@ -120,6 +120,17 @@ def mutate_steps(r, steps):
                 s["payload"] = tail[j * sz:(j + 1) * sz].hex()
                 ns.append(s)
             steps = steps[:i] + ns
+    elif len(steps) >= 2 and k < 0.80:
+        # in the middle of the transfer the client sends a request that is complete in its single block 0 (a restart
+        # with a short body), and then goes on with the OLD transfer's next block: that continuation has nothing to
+        # extend any more
+        i = r.randrange(1, len(steps))
+        single = dict(steps[0])
+        szx = single["b1"][2]
+        p = bytes.fromhex(single["payload"])
+        single["payload"] = (p if r.chance(0.5) else p[: r.randint(1, max(1, len(p)))] or b"x").hex()
+        single["b1"] = [0, 0, szx]
+        steps = steps[:i] + [single] + steps[i:]
     return steps
 
 
@@ -196,7 +207,13 @@ def gen(r, tier):
         else:
             t += r.choice([2 * T + 0.01, 200.0, 400.0])
         op["t"] = round(t, 4)
-    return {"nclients": nclients, "ops": ops, "same_host": r.chance(0.3)}
+    tcp = []
+    if r.chance(0.15):
+        # the server also listens on TCP: downloads by a peer that announced block-wise support (BERT where it fits)
+        for _ in range(r.randint(1, 2)):
+            tcp.append({"t": round(r.uniform(0, 5), 3), "rlen": r.choice([100, 1024, 1025, 2048, 3000, 5000, 8192, 8193, 20000]),
+                        "mms": r.choice([1152, 2300, 3400, 8320, 70000]), "szx": r.choice([7, 7, None, 6, 4])})
+    return {"nclients": nclients, "ops": ops, "same_host": r.chance(0.3), "tcp": tcp}
 
 
 def systematic(tier):
@@ -279,7 +296,7 @@ def execute(sim, scn):
             counter[0] += 1
             rid = counter[0]
             q = dict((x.split("=", 1) + [""])[:2] for x in request.opt.uri_query)
-            sa = request.remote.sockaddr
+            sa = getattr(request.remote, "sockaddr", None) or ("tcp:" + str(request.remote.hostinfo), 0)
             invocations.append({"t": loop.now, "rid": rid, "path": self.path, "method": int(request.code),
                                 "client": (sa[0], sa[1]), "body": bytes(request.payload),
                                 "query": sorted(request.opt.uri_query), "mid": request.mid})
@@ -293,10 +310,76 @@ def execute(sim, scn):
         site = resource.Site()
         site.add_resource(["r0"], Rec("r0"))
         site.add_resource(["r1"], Rec("r1"))
+        if scn.get("tcp"):
+            import aiocoap
+            from simkit.stream import SimStreamNet
+            loop.streamnet = SimStreamNet(sim)
+            ctx = await aiocoap.Context.create_server_context(site, bind=(common.SERVER_IP, 5683),
+                                                              transports=["udp6", "tcpserver"], loggername="coap-server")
+            sim.contexts.append(ctx)
+            return ctx
         return await sim.server(site, common.SERVER_IP)
 
     loop.run_until_complete(setup())
     srv = (common.SERVER_IP, 5683)
+    tcp_results = []
+
+    async def tcp_download(j, spec):
+        """A conforming RFC 8323 client (CSM with Max-Message-Size and Block-Wise-Transfer) downloads a rendering of
+        `rlen` bytes; with SZX 7 (BERT) a message carries several KiB and block numbers count KiB."""
+        import asyncio
+        from simkit.stream import TcpPeer, split_frames
+        waiters = {}
+
+        def on_data(p, d):
+            frames, _ = split_frames(p.rx)
+            for (a, b, m, err) in frames:
+                if m is not None and m["token"] in waiters and not waiters[m["token"]].done() and 64 <= m["code"] < 224:
+                    waiters[m["token"]].set_result(m)
+        peer = TcpPeer(sim, "tcp-dl#%d" % j, on_data=on_data)
+        await peer.connect(common.SERVER_IP, 5683)
+        peer.send({"code": rc.CSM, "token": b"", "payload": b"", "options": [(2, rc.uint_bytes(spec["mms"])), (4, b"")]})
+        got, rids, k, szx = b"", set(), 0, spec["szx"]
+        verdict = "never-ends"
+        while k < 200:
+            k += 1
+            tok = bytes([0x7B, j & 0xFF, k])
+            opts = [(rc.URI_PATH, b"r0"), (rc.URI_QUERY, b"k=tcp%d" % j), (rc.URI_QUERY, b"len=%d" % spec["rlen"])]
+            if got or szx is not None:
+                unit = 1024 if szx == 7 else size_of(szx)
+                opts.append((rc.BLOCK2, rc.block_bytes(len(got) // unit, False, szx)))
+            waiters[tok] = loop.create_future()
+            peer.send({"code": rc.GET, "token": tok, "options": opts, "payload": b""})
+            try:
+                resp = await asyncio.wait_for(waiters[tok], 30)
+            except asyncio.TimeoutError:
+                verdict = "no-answer"
+                break
+            if resp["code"] != rc.CONTENT:
+                verdict = "error " + rc.code_str(resp["code"])
+                break
+            b2 = rc.opt1(resp, rc.BLOCK2)
+            if b2 is None:
+                got += resp["payload"]
+                verdict = "complete"
+                break
+            n, more, s_ = rc.block_value(b2)
+            unit = 1024 if s_ == 7 else size_of(s_)
+            if n * unit != len(got):
+                verdict = "block number %d (unit %d) does not continue at %d" % (n, unit, len(got))
+                break
+            if s_ == 7:
+                sim.probe("bert_block")
+            got += resp["payload"]
+            szx = s_
+            if not more:
+                verdict = "complete"
+                break
+        peer.close()
+        tcp_results.append((j, spec, verdict, got))
+
+    for j, spec in enumerate(scn.get("tcp") or []):
+        loop.at(spec["t"], lambda j=j, spec=spec: loop.create_task(tcp_download(j, spec)))
     if scn.get("same_host"):
         # several client processes on one host: one IP address, different ports -- different endpoints
         clients = [Client(sim, common.PEER_IPS[0], 5683 + i) for i in range(scn["nclients"])]
@@ -539,6 +622,16 @@ def execute(sim, scn):
             e1 = rc.opt1(resp, rc.BLOCK1)
             if e1 is None or rc.block_value(e1) != b1echo:
                 sim.violation("C06/final-block1-not-echoed", dict(ident, echoed=list(rc.block_value(e1)) if e1 else None))
+    # downloads over TCP: the body is one rendering, complete
+    for (j, spec, verdict, got) in tcp_results:
+        sim.nontrivial = True
+        mine_tcp = [inv for inv in invocations if b"k=tcp%d" % j in [q.encode() if isinstance(q, str) else q for q in inv["query"]]]
+        ok = verdict == "complete" and any(got == rendering(inv["rid"], spec["rlen"]) for inv in mine_tcp)
+        if not ok:
+            sim.violation("C06/tcp-download-not-the-rendering", {"download": j, "spec": spec, "verdict": verdict, "got": len(got),
+                                                                 "renderings": len(mine_tcp)})
+        else:
+            sim.probe("tcp_download_ok")
     # any invocation not attributed to an op's datagram?
     for (t, m, en, es) in sim.loop_exceptions():
         sim.anomaly("loop-exception:%s" % en, "%s %s" % (m, es))
